@@ -16,13 +16,12 @@
    The _partial theorems are the full refinement statement for a container ANYWHERE in a well-formed forest driven by calls
    with plain Python arguments.  What they leave to the correspondence (model vs pg.List / pg.Dict on generated histories,
    every step): arguments that are existing symbolic nodes (adopted or copied at write time -- Python would alias), opaque
-   objects as written values, rebind on lists / with multi-key paths (the write of rebind({i: v}) on a list is covered by
-   the extension theorems). *)
+   objects as written values, MISSING_VALUE written into a list by rebind (the element is dropped at the next notification). *)
 From Coq Require Import ZArith NArith List Bool.
 From PG Require Import Common.Tactics Model.SymCoreDefs Model.SymCoreOps Model.SymCoreSpec Model.SymCoreC02
      Proofs.SymCoreWF Proofs.SymCoreIds Proofs.SymCoreC02Base Proofs.SymCoreC02Read Proofs.SymCoreC02Frame Proofs.SymCoreC02Prim
      Proofs.SymCoreC02List Proofs.SymCoreC02Items Proofs.SymCoreC02Dict Proofs.SymCoreC02Step Proofs.SymCoreC02Ext Proofs.PyListFacts
-     Proofs.SymCoreC02Slice Proofs.SymCoreC02WF Proofs.SymCoreC02Or Proofs.SymCoreC02Rebind Proofs.SymCoreC02Examples Proofs.SymCoreC02Summary Proofs.SymCoreC02Init.
+     Proofs.SymCoreC02Slice Proofs.SymCoreC02WF Proofs.SymCoreC02Or Proofs.SymCoreC02Rebind Proofs.SymCoreC02Nested Proofs.SymCoreC02Examples Proofs.SymCoreC02Summary Proofs.SymCoreC02Init.
 From PG Require Model.PyList Model.PyDict.
 Import ListNotations.
 Local Open Scope Z_scope.
@@ -114,6 +113,23 @@ Theorem C02_refines_python_rebind_list_partial : forall q sc ps tid pa fl st its
   out = match snd (py_lwrites (evals its) (map entry_w (sort_desc pvs))) with None => Ok RNone | Some e => Err (err_of e) end.
 Proof. exact exec_rebind_list_refines. Qed.
 Print Assumptions C02_refines_python_rebind_list_partial.
+
+(* rebind with several paths of any length, on a list (entries sorted from the highest path down, [sort_desc]) or on a dict
+   (entries in the given order): each entry navigates from the target to its container (negative list indices resolved, a
+   missing step is a KeyError) and writes there as list / dict do; the first error stops the batch and keeps the earlier
+   writes; on the erasure this is the nested update [py_batch] of the plain value.  [root_dclean]: no container of the root
+   holds the MISSING_VALUE marker.  [py_batch] is None when an entry is outside the comparison (string key on a list, an
+   insertion marker written into a dict, a pg.Object on the way); write-permission refusals are C08's. *)
+Theorem C02_refines_python_rebind_nested_partial : forall q sc tp st tid tk pa fl its pvs st' out res,
+  WFI st -> get_at st tp = Some (Node tid tk pa (snd tp) fl its) -> (tk = KList \/ tk = KDict) -> root_dclean st (fst tp) ->
+  Forall (fun pv0 => val_ok (snd pv0)) pvs -> pvs <> [] ->
+  exec q sc st tp tid tk (snd tp) fl its (Rebind pvs) = (st', out) -> out <> Err EWrite ->
+  py_batch (erase (Node tid tk pa (snd tp) fl its)) (entries (match tk with KList => sort_desc pvs | _ => pvs end)) = Some res ->
+  WFI st' /\ root_dclean st' (fst tp) /\
+  (exists T', get_at st' tp = Some T' /\ erase T' = fst res) /\
+  out = match snd res with None => Ok RNone | Some e => Err (err_of e) end.
+Proof. exact exec_rebind_nested_refines. Qed.
+Print Assumptions C02_refines_python_rebind_nested_partial.
 
 (* --- C02_history: every finite history on one container ---------------------------------------------------------------------- *)
 (* lists: base catalogue and slice operations interleaved in any order; [lhist2_ok] only says that every call has plain
